@@ -44,7 +44,11 @@ class ipaddress(FieldType):
             return defang(str(self))
         return str.__format__(str(self), spec)
 
-    def _pack(self) -> int:
+    def _pack(self) -> int | bytes:
+        if self.val.version == 6 and int(self.val) < 2**32:
+            # _unpack infers the address family from the magnitude of the integer, so a small IPv6
+            # address (e.g. ::1) would come back as IPv4; its packed bytes keep the family.
+            return self.val.packed
         return int(self.val)
 
     @staticmethod
